@@ -149,6 +149,16 @@ def run(rep, tier, seed):
     import multiprocessing as mp, os
     N = 256 if tier == "quick" else 2048
     sizes = list(range(0, N + 1))
+    # a few long inputs, and lengths on both sides of every integer constant / narrow counter width the sponge code has
+    # that the pinned tree did not (threshold-directed, glv/thresholds.py)
+    from .. import thresholds
+    ths = thresholds.new_thresholds('poseidon')
+    tl, skipped = thresholds.sponge_lengths(ths, tier)
+    sizes = sorted(set(sizes) | {1000, 2047, 2048, 2049, 2056, 4099} | set(tl))
+    if ths:
+        rep.note('threshold-directed lengths: new integer constants %s in the sponge / tree code; lengths added: %s' % (ths, tl[:40]))
+    if skipped:
+        rep.note('NOT DECIDED: constants %s are beyond the lengths this tier can explore' % skipped)
     nproc = min(16, os.cpu_count() or 4)
     jobs = []
     for cfg in ('avx2', 'avx512'):
